@@ -342,6 +342,30 @@ def m_errors_is(ex, args, guard, pos):
     return res, guard
 
 
+def m_errors_as(ex, args, guard, pos):
+    """errors.As(err, target): first error in the modelled Unwrap chain whose dynamic type matches *target's element type
+    (interface element: method-set inclusion; opaque sentinel values only have Error()). Custom As methods are not consulted."""
+    err, target = args
+    if not isinstance(target, IfaceV) or len(target.alts) != 1 or target.alts[0][1] is None:
+        raise Unsupported("errors.As with a non-concrete target")
+    _, ptid, ptr = target.alts[0]
+    elem = ex.prog.under(ptid)[1]["elem"]
+    is_iface = ex.prog.kind(elem) == "interface"
+    found = False
+    for g, t, p in _unwrap_chain(ex, err):
+        if is_iface:
+            match = bool(ex.implements(t, elem))
+        else:
+            match = ex.prog.canon(t) == ex.prog.canon(elem)
+        if not match:
+            continue
+        gg = b_and(guard, g, b_not(found))
+        if gg is not False:
+            ex.store(ptr, IfaceV([(True, t, p)]) if is_iface else p, gg, pos)
+        found = b_or(found, g)
+    return found, guard
+
+
 def m_errors_join(ex, args, guard, pos):
     va = args[0]
     errs = []
@@ -959,6 +983,7 @@ def install(ex):
             M[fname] = m_unsupported(fname)
     M["errors.New"] = m_errors_new
     M["errors.Is"] = m_errors_is
+    M["errors.As"] = m_errors_as
     M["errors.Join"] = m_errors_join
     M["errors.Unwrap"] = m_errors_unwrap
     M["fmt.Errorf"] = m_fmt_errorf
